@@ -1053,7 +1053,8 @@ def A64_load_store(obj, opc, imm19, Rt):
     if opc == 2:
         obj.size = 4
         obj.signed = True
-    obj.t = sp2z(env.Xregs[Rt]) if obj.size == 8 else sp2z(env.Wregs[Rt])
+    # LDRSW sign-extends the word into Xt
+    obj.t = sp2z(env.Xregs[Rt]) if (obj.size == 8 or obj.signed) else sp2z(env.Wregs[Rt])
     obj.operands = [obj.t, obj.offset]
     obj.type = type_data_processing
 
